@@ -33,6 +33,8 @@ mod ip;
 mod relay;
 #[cfg(iroh_verif)]
 pub(crate) use self::relay::actor_verif as relay_actor_verif;
+#[cfg(iroh_verif)]
+pub(crate) use self::relay::verif as relay_verif;
 
 use custom::{CustomEndpoint, CustomSender, CustomTransport};
 
